@@ -140,7 +140,9 @@ func (t *Term) Alts() []*Term {
 type Symx struct {
 	Inline   func(*ssa.Function) bool
 	MaxDepth int
-	subst    map[ssa.Value]*Term
+	// ElideConv drops numeric conversions from the rendering (uint8(h) and h index the same level).
+	ElideConv bool
+	subst     map[ssa.Value]*Term
 }
 
 func NewSymx() *Symx { return &Symx{MaxDepth: 40} }
@@ -240,6 +242,9 @@ func (s *Symx) of(v ssa.Value, visiting map[ssa.Value]bool, depth int) *Term {
 	case *ssa.BinOp:
 		return &Term{Op: "binop", Name: x.Op.String(), Args: []*Term{rec(x.X), rec(x.Y)}, Val: v}
 	case *ssa.Convert:
+		if s.ElideConv {
+			return rec(x.X)
+		}
 		t := rec(x.X)
 		// keep numeric conversions visible only when they narrow/widen between different basic kinds
 		return &Term{Op: "call", Name: "conv:" + shortType(x.Type()), Args: []*Term{t}, Val: v}
@@ -507,7 +512,7 @@ func (s *Symx) call(c *ssa.Call, visiting map[ssa.Value]bool, depth int) *Term {
 
 // inlineCall evaluates the callee's return operands with its parameters substituted by the caller's argument terms.
 func (s *Symx) inlineCall(f *ssa.Function, cc *ssa.CallCommon, visiting map[ssa.Value]bool, depth int) *Term {
-	sub := &Symx{Inline: s.Inline, MaxDepth: s.MaxDepth, subst: map[ssa.Value]*Term{}}
+	sub := &Symx{Inline: s.Inline, MaxDepth: s.MaxDepth, ElideConv: s.ElideConv, subst: map[ssa.Value]*Term{}}
 	for k, v := range s.subst {
 		sub.subst[k] = v
 	}
